@@ -154,11 +154,12 @@ def r2_rank_function(ctx, sym, table):
 RESOLVERS = (('pedal.resolvers.simple', True), ('pedal.resolvers.full', True), ('pedal.resolvers.sectional', False))
 
 
-def r3_r5_resolvers(ctx, sym):
-    ctx.rule('R3', "each resolver sorts report.feedback (+ ignored_feedback) with list.sort/sorted(key=priority_key) "
+def r3_r5_resolvers(ctx, sym, ids=('R3', 'R5'), writers=True):
+    R3, R5 = ids
+    ctx.rule(R3, "each resolver sorts report.feedback (+ ignored_feedback) with list.sort/sorted(key=priority_key) "
                    "only (stable, no reverse); priority_key defaults to by_priority; Report.add_feedback is the only "
                    "appender of report.feedback and appends at the end")
-    ctx.rule('R5', "each resolver merges every element of the sorted list in order (no break/continue/condition), "
+    ctx.rule(R5, "each resolver merges every element of the sorted list in order (no break/continue/condition), "
                    "then calls finalize() once, starting from set_correct_no_errors(report)")
     for modname, with_ignored in RESOLVERS:
         mod = ctx.repo.module(modname)
@@ -171,14 +172,14 @@ def r3_r5_resolvers(ctx, sym):
         pk = defaults.get('priority_key')
         r = sym.resolve_name(mod, pk.id) if isinstance(pk, ast.Name) else None
         ctx.check(isinstance(r, tuple) and r[0] == 'func' and r[1].name == SIMPLE and r[2].name == 'by_priority',
-                  'R3', tag + ':priority_key', mod, fn, "priority_key does not default to simple.by_priority",
+                  R3, tag + ':priority_key', mod, fn, "priority_key does not default to simple.by_priority",
                   "feedback is ordered by something other than the documented ranks", construct='def resolve(...)')
         sorts = [c for c in calls(fn) if (isinstance(c.func, ast.Attribute) and c.func.attr == 'sort')
                  or call_name(c) == 'sorted']
         ok = len(sorts) == 1 and [k.arg for k in sorts[0].keywords] == ['key'] and \
             norm(sorts[0].keywords[0].value) == 'priority_key' and \
             len(sorts[0].args) == (0 if isinstance(sorts[0].func, ast.Attribute) else 1)
-        ctx.check(ok, 'R3', tag + ':stable-sort', mod, sorts[0] if sorts else fn,
+        ctx.check(ok, R3, tag + ':stable-sort', mod, sorts[0] if sorts else fn,
                   "the feedback list is not sorted exactly once with key=priority_key (no reverse, no second pass)",
                   "ties are no longer broken by creation order / order is reversed",
                   construct=norm(sorts[0]) if sorts else 'resolve')
@@ -201,7 +202,7 @@ def r3_r5_resolvers(ctx, sym):
             good = good and len(appends) == 1 and not any(True for _ in method_calls(fn, 'insert'))
         else:
             good = src is not None and norm(src) in ('report.feedback + report.ignored_feedback',)
-        ctx.check(good, 'R3', tag + ':sorted-list-provenance', mod, src if src is not None else fn,
+        ctx.check(good, R3, tag + ':sorted-list-provenance', mod, src if src is not None else fn,
                   "the sorted list is not report.feedback%s in creation order" % (
                       ' + report.ignored_feedback' if with_ignored else ' grouped by parent'),
                   "creation order among equal keys is lost", construct=norm(src) if src is not None else 'resolve')
@@ -227,13 +228,15 @@ def r3_r5_resolvers(ctx, sym):
                         and norm(n.targets[0]) == fin_var and isinstance(n.value, ast.Call)
                         and call_name(n.value) == 'set_correct_no_errors' and norm(n.value.args[0]) == 'report']
                 ok = len(fin) == 1 and len(init) == 1
-        ctx.check(ok, 'R5', tag + ':merge-all-then-finalize', mod, loops[0] if loops else fn,
+        ctx.check(ok, R5, tag + ':merge-all-then-finalize', mod, loops[0] if loops else fn,
                   "the resolver does not merge every sorted feedback in order and then finalize once",
                   "an eligible higher-ranked feedback is skipped, or the default 'no errors' result is not installed",
                   construct='for feedback in %s: final.merge(feedback)' % sorted_var)
         res = [n for n in body_walk(fn) if isinstance(n, ast.Return)]
-        ctx.check(len(res) == 1 and isinstance(res[0].value, ast.Name), 'R5', tag + ':returns-final', mod, fn,
+        ctx.check(len(res) == 1 and isinstance(res[0].value, ast.Name), R5, tag + ':returns-final', mod, fn,
                   "resolve does not return the final feedback", "caller gets nothing")
+    if not writers:
+        return
     # who writes report.feedback
     rmod = ctx.repo.module(REPORT)
     MUT = ('append', 'extend', 'insert', 'pop', 'remove', 'clear', 'sort', 'reverse')
@@ -260,11 +263,11 @@ def r3_r5_resolvers(ctx, sym):
                 n += 1
                 f = enclosing_function(node)
                 q = getattr(f, '_qualname', '<module>')
-                ctx.check(m is rmod and (hit[0], hit[1], q) in allowed, 'R3',
+                ctx.check(m is rmod and (hit[0], hit[1], q) in allowed, R3,
                           'writer:%s.%s@%s' % (hit[0], hit[1], q), m, node,
                           "report.%s is mutated (%s) outside Report.add_feedback/add_ignored_feedback/clear" % hit,
                           "creation order of feedback is no longer the list order (tie-break changes)")
-    ctx.floor('R3', 'writers of report.feedback', n, 6)
+    ctx.floor(R3, 'writers of report.feedback', n, 6)
 
 
 def domain_eligibility(model):
